@@ -28,7 +28,8 @@ META = {
     "assumptions": [
         "a VLAN set is written as its sorted range list cut into consecutive config lines (a partition: lines of one side are disjoint)",
         "RefVlan device model: '<prefix> <list>' adds, 'undo|no <prefix> [remove] <list>' removes, 'undo <prefix> all' / '<prefix> none' clears",
-        "VLAN numbers are concrete members of a small universe (symbolic numbers are realised by set hashing)",
+        "VLAN numbers are concrete members of a small universe (symbolic numbers are realised by set hashing; a CrossHair probe of the string round trip with 4 symbolic ints did not finish in 100 s)",
+        "Cisco-style lists are tried with and without a blank after each comma on the old side; the plain 'switchport trunk allowed vlan <list>' form REPLACES the list",
     ],
     "outside": ["overlapping lines", "cisco vlan blocks with children",
                 "universes larger than stated"],
